@@ -12,6 +12,8 @@ CONSTANTS
   IdCases = {"lower", "upper"}
   HonestModes = {TRUE}
   AnswerKinds = {"ok"}
+  Restores = {}
+  DecSpawn = {TRUE, FALSE}
   NormalisedRemove = FALSE
 CONSTRAINT QBound
 INVARIANT TypeOK
@@ -25,6 +27,7 @@ INVARIANT NotifiedWithNewNumber
 INVARIANT RemovedMeansGone
 INVARIANT NoUpdatesWhileRemoving
 INVARIANT ConnectsToLatest
+INVARIANT CallbackNeverRaises
 PROPERTY ProcessesCurrentRecord
 PROPERTY NoWorkAfterShutdown
 CHECK_DEADLOCK FALSE
